@@ -343,6 +343,10 @@ class BaseNestedSampler(ABC):
         sampler.model = model
         sampler.resumed = True
         sampler.checkpoint_callback = checkpoint_callback
+        # The pickled start time belongs to the process that wrote the
+        # checkpoint; the interval up to the checkpoint is already included in
+        # sampling_time.
+        sampler.sampling_start_time = datetime.datetime.now()
         return sampler
 
     @classmethod
